@@ -283,7 +283,13 @@ func (fc *FnCtx) exec(st *State, s ast.Stmt) []Outcome {
 			}
 		} else if _, isTuple := fc.info.TypeOf(x.Results[0]).(*types.Tuple); len(x.Results) == 1 && fc.sig.Results().Len() > 1 && isTuple {
 			tv := ec.eval(x.Results[0]).(*TupleV)
-			rets = tv.Vs
+			tt := fc.info.TypeOf(x.Results[0]).(*types.Tuple)
+			for i, v := range tv.Vs {
+				if i < tt.Len() && i < fc.sig.Results().Len() {
+					v = ec.convertTo(v, tt.At(i).Type(), fc.sig.Results().At(i).Type())
+				}
+				rets = append(rets, v)
+			}
 		} else {
 			for i, r := range x.Results {
 				v := ec.eval(r)
@@ -745,7 +751,7 @@ func (fc *FnCtx) assignedIn(nodes ...ast.Node) []modTarget {
 // mutatesReceiver: library models whose effect is on the receiver object itself
 // (in-memory buffers); all other modelled methods act on ghost state only.
 func mutatesReceiver(full string) bool {
-	return strings.HasPrefix(full, "(*strings.Builder).") || strings.HasPrefix(full, "(*bytes.Buffer).")
+	return strings.HasPrefix(full, "(*strings.Builder).") || strings.HasPrefix(full, "(*bytes.Buffer).") || full == "(*github.com/a-h/parse.Input).Take"
 }
 
 func modRootField(m ast.Expr) (string, string) {
@@ -854,7 +860,7 @@ func (fc *FnCtx) havocGhosts(st *State, nodes ...ast.Node) {
 	fc.e.fresher.n++
 	st.ghost["$epoch"] = Int(int64(fc.e.fresher.n))
 	for k := range st.ghost {
-		if strings.HasPrefix(k, "out:") || strings.HasPrefix(k, "in:") || strings.HasPrefix(k, "tr:") || strings.HasPrefix(k, "refused:") {
+		if strings.HasPrefix(k, "out:") || strings.HasPrefix(k, "in:") || strings.HasPrefix(k, "tr:") || strings.HasPrefix(k, "refused:") || strings.HasPrefix(k, "hdr:") {
 			delete(st.ghost, k) // re-materialised lazily in the new epoch
 		}
 	}
